@@ -157,7 +157,10 @@ def scan(rel, regions, mainrange):
             if call:
                 kind = "KNotFlag"
         if kind is None:
-            has_type = re.search(r"\b(bool|auto)\b", stmt_before) is not None and not member
+            # a declaration / definition: nothing but type words and qualifiers before the name (`volatile static bool`,
+            # `volatile bool vfps::Display::`); `T& r = Display::abort` is an access, not a declaration of the flag
+            has_type = re.search(r"\bbool\b", stmt_before) is not None and not member and \
+                re.match(r"^[\sA-Za-z_0-9:]*$", stmt_before) is not None
             if has_type and after.startswith(";"):
                 kind = "KDecl"
             elif has_type and (after.startswith("(") or after.startswith("{") or re.match(r"^=(?!=)", after)):
